@@ -35,7 +35,7 @@ NEUTRAL = ['-U0', '--stat', 'HEAD', 'a.txt', '--cached']
 GLOBALS = [[], ['-C', None], ['-c', 'k=v'], ['--git-dir', None, '--no-pager']]
 
 BOUNDS = {
-    'quick': 'K1: argv = globals (none | -C <2 symbolic bytes> | -c k=v | --git-dir <x> --no-pager) + `diff` + <=2 option tokens + optional (`--` + <=1 pathspec); option tokens range over every option the three profiles strip (exact, `=`-form with 1-2 symbolic bytes, split `--src-prefix X`), every option they pin, neutral options, and fully symbolic 2-3 byte tokens; pathspec = a pinned option name or 2 symbolic bytes',
+    'quick': 'K1: argv = globals (none | -C <2 symbolic bytes> | -c k=v | --git-dir <x> --no-pager) + `diff` + <=2 option tokens + optional (`--` + <=1 pathspec); option tokens range over every option the three profiles strip (exact, `=`-form with 1-2 symbolic bytes, split `--src-prefix X`), every option they pin, every pinned name extended by 1 symbolic byte (a different option that starts alike), neutral options, and fully symbolic 2-3 byte tokens; pathspec = a pinned option name or 2 symbolic bytes',
     'thorough': 'as quick with 3 option tokens',
 }
 OUTSIDE = 'which internal call sites use which profile (call-site audit); options outside the listed dimensions (--word-diff, -R, --stat ...) that internal callers never pass; K3 discovery (resolve_command_base_dir / worktree_storage_ai_dir) — filesystem canonicalisation, not encoded; blame/notes display configuration (interpreted by git itself)'
@@ -55,6 +55,10 @@ def option_alphabet(profile):
         toks.append(('lit', x))
     for x in PINNED[profile]:
         toks.append(('lit', x))
+    # an option that merely *starts like* a pinned one (e.g. --no-color-moved) is a different option
+    for x in PINNED[profile]:
+        if '=' not in x:
+            toks.append(('pre', x))
     for x in NEUTRAL:
         toks.append(('lit', x))
     toks.append(('sym', 2))
